@@ -233,11 +233,18 @@ pub fn run_big(name: &str, n: usize) -> Result<String, String> {
             "<div class=\"c1 c2 c3\"><span a1 a2 a51></span></div>".repeat(200).into_bytes()
         }
         "deeply_nested_not_selector" => {
-            let sel = format!("{}a{}", ":not(".repeat(n), ")".repeat(n));
-            return match guard(|| sel.parse::<Selector>().map(|_| ())) {
-                Err(p) => Err(format!("panic parsing a {n}-deep :not(): {p}")),
-                Ok(r) => Ok(format!("parse result ok={}", r.is_ok())),
-            };
+            // the nesting on its own, and after constructs a depth pre-scan has to read the way
+            // the real parser does: strings with escaped quotes / parentheses / backslashes,
+            // escaped characters outside strings, comments
+            let mut outcomes = vec![];
+            for prefix in ["", "[a=\"\\\"\"]", "[a='\\'']", "[a=\"(\"]", "[a=\"\\\\\"]", "[a=\")\"]", "a\\(", "[a=\"\\\"(\"]", "/*\"*/", "[a=\"'\"]", "[a='\"']", "a\\\"", "[a=\"\\\n\"]"] {
+                let sel = format!("{prefix}{}a{}", ":not(".repeat(n), ")".repeat(n));
+                match guard(|| sel.parse::<Selector>().map(|_| ())) {
+                    Err(p) => return Err(format!("panic parsing a {n}-deep :not() after {prefix:?}: {p}")),
+                    Ok(r) => outcomes.push(r.is_ok()),
+                }
+            }
+            return Ok(format!("parse results ok={outcomes:?}"));
         }
         "deep_foreign_nesting_100k" => {
             cfg.docs.push(DocSpec { text: true, comments: true, ..Default::default() });
